@@ -9,7 +9,7 @@ EXTENDS Integers, Sequences, FiniteSets
 Pos == [ S1A1 |-> <<1, 1, 1>>, S1B1 |-> <<1, 2, 1>>, S1C1 |-> <<1, 3, 1>>, S1D1 |-> <<1, 4, 1>>,
          S1A2 |-> <<1, 1, 2>>, S1B2 |-> <<1, 2, 2>>, S1C2 |-> <<1, 3, 2>>, S1D2 |-> <<1, 4, 2>>,
          S1E1 |-> <<1, 5, 1>>, S1F4 |-> <<1, 6, 4>>,
-         S2A1 |-> <<2, 1, 1>>, S2B1 |-> <<2, 2, 1>>, S2C3 |-> <<2, 3, 3>> ]
+         S2A1 |-> <<2, 1, 1>>, S2B1 |-> <<2, 2, 1>>, S2C3 |-> <<2, 3, 3>>, S2D1 |-> <<2, 4, 1>> ]
 AllCoords == DOMAIN Pos
 Sheets == {1, 2}
 
@@ -17,12 +17,13 @@ K(v) == [op |-> "const", v |-> v]
 Bin(o, a, b) == [op |-> o, a |-> a, b |-> b]
 \* S1: A1=3  B1=5  C1=A1+B1  D1=C1*2 ; A2 blank  B2=8/A2 (fails while A2 is blank)  C2=B2+1  D2=A2+1
 \*     E1=F4+S2!C3 reads two cells that lie beyond the used ranges (blank until they are overridden)
-\* S2: A1=S1!A1*5  B1=10 ;  S1!F4 and S2!C3 lie beyond the used range
+\* S2: A1=S1!A1*5  B1=10  D1=SUM(C:C) - a WHOLE column: every cell of column C, also rows that exist only because of an override ;
+\*     S1!F4 and S2!C3 lie beyond the used range
 WB == [ S1A1 |-> K(3), S1B1 |-> K(5), S1C1 |-> Bin("add", "S1A1", "S1B1"), S1D1 |-> Bin("mulk", "S1C1", 2),
         S1B2 |-> Bin("kdiv", 8, "S1A2"), S1C2 |-> Bin("addk", "S1B2", 1), S1D2 |-> Bin("addk", "S1A2", 1),
         S1E1 |-> Bin("add", "S1F4", "S2C3"),
-        S2A1 |-> Bin("mulk", "S1A1", 5), S2B1 |-> K(10) ]
-UsedSize == [s \in Sheets |-> IF s = 1 THEN [rows |-> 2, cols |-> 5] ELSE [rows |-> 1, cols |-> 2]]
+        S2A1 |-> Bin("mulk", "S1A1", 5), S2B1 |-> K(10), S2D1 |-> [op |-> "wcol", s |-> 2, col |-> 3] ]
+UsedSize == [s \in Sheets |-> IF s = 1 THEN [rows |-> 2, cols |-> 5] ELSE [rows |-> 1, cols |-> 4]]
 
 \* values: [k |-> "num", n] | [k |-> "blank"] | [k |-> "err"] | [k |-> "other"]
 Num(n) == [k |-> "num", n |-> n]
@@ -44,7 +45,9 @@ Arith(o, x, y) ==
          [] o = "mul" -> Num(a * b)
          [] o = "div" -> IF b = 0 THEN Err ELSE IF a % b = 0 THEN Num(a \div b) ELSE Other
 
-RECURSIVE Ev(_, _)
+RECURSIVE Ev(_, _), SumOf(_, _)
+\* sum of the cells of a set (numbers; blanks count 0): the whole-column fold
+SumOf(S, ov) == IF S = {} THEN Num(0) ELSE LET x == CHOOSE y \in S : TRUE IN Arith("add", Ev(x, ov), SumOf(S \ {x}, ov))
 \* ov: function from a subset of AllCoords to integers (the overrides in force)
 Ev(c, ov) ==
   IF c \in DOMAIN ov THEN OvVal(ov[c])                       \* an overridden cell IS its constant
@@ -55,6 +58,7 @@ Ev(c, ov) ==
          [] f.op = "addk"  -> Arith("add", Ev(f.a, ov), Num(f.b))
          [] f.op = "mulk"  -> Arith("mul", Ev(f.a, ov), Num(f.b))
          [] f.op = "kdiv"  -> Arith("div", Num(f.a), Ev(f.b, ov))
+         [] f.op = "wcol"  -> SumOf({x \in AllCoords : Pos[x][1] = f.s /\ Pos[x][2] = f.col}, ov)
 
 \* sizes reported for a sheet: used range extended by the overrides
 MaxOf(S, d) == IF S = {} THEN d ELSE LET m == CHOOSE x \in S : \A y \in S : y <= x IN IF m > d THEN m ELSE d
